@@ -11,7 +11,7 @@ use crate::exch::{ExchCfg, Gate, Menu, ServerMsg};
 use crate::exch_run::{replay_exchange, run_exchanges};
 use crate::refmodel::chunked::{encode, ChunkSpec};
 
-pub const RULE: &str = "codings by construction: chunks of size {1,2,3} x payload pattern {letters, starts with CRLF, ends with CR, starts with LF} x size spelling {plain, leading zero, extension}, last-chunk spelling {0,000,0;x}, 0..2 trailers, size lines of exactly 20 and 19 bytes (the decoder's documented limit), a 130-byte trailer line, trailer field names that look like a status line / last chunk / framing header (HTTP2-Settings, HTTP, 0, Content-Length, Transfer-Encoding), obs-text in quoted chunk-extension values and trailer values, the coding announced by Transfer-Encoding spellings {chunked, Chunked, 'gzip, chunked', 'chunked,', 'gzip,chunked, ,', ', chunked', 'chunked ,TAB'}, always followed by 'HTTP/1.1 2' which must stay unconsumed; quick: all 1-chunk codings and a pairwise-reduced family of 2-chunk codings, thorough: all codings of <=2 chunks and a reduced family of 3-chunk codings; plus single chunks of size 15,16,255,256,4095,4096 in lower/upper/mixed-case hex with and without leading zero. Per coding and boundary-stop {off,on} the COMPLETE graph over (dechunker state, consumed, arrived): 1-byte arrivals, read with buffers {0,1,2,3,4,large} at every window (large chunks: arrival cuts at every size-line/tail position and data end -1/0/+1/+2, buffers {0,size-1,size,size+1,large} and {1,4} up to 256). distinct = distinct (coding, stop mode, final observation)";
+pub const RULE: &str = "codings by construction: chunks of size {1,2,3} x payload pattern {letters, starts with CRLF, ends with CR, starts with LF} x size spelling {plain, leading zero, extension}, last-chunk spelling {0,000,0;x}, 0..2 trailers, size lines of exactly 20 and 19 bytes (the decoder's documented limit), a 130-byte trailer line, trailer field names that look like a status line / last chunk / framing header (HTTP2-Settings, HTTP, 0, Content-Length, Transfer-Encoding), obs-text in quoted chunk-extension values and trailer values, the coding announced by Transfer-Encoding spellings {chunked, Chunked, 'gzip, chunked', 'chunked,', 'gzip,chunked, ,', ', chunked', 'chunked ,TAB'}, also as the answer to an HTTP/1.0 request, always followed by 'HTTP/1.1 2' which must stay unconsumed; quick: all 1-chunk codings and a pairwise-reduced family of 2-chunk codings, thorough: all codings of <=2 chunks and a reduced family of 3-chunk codings; plus single chunks of size 15,16,255,256,4095,4096 in lower/upper/mixed-case hex with and without leading zero. Per coding and boundary-stop {off,on} the COMPLETE graph over (dechunker state, consumed, arrived): 1-byte arrivals, read with buffers {0,1,2,3,4,large} at every window (large chunks: arrival cuts at every size-line/tail position and data end -1/0/+1/+2, buffers {0,size-1,size,size+1,large} and {1,4} up to 256). plus interleaving: all 25 ordered pairs of five chunked responses decoded alternately on one thread (first i steps of one, j steps of the other, then each to its end, for every i, j) with 7-byte arrivals and 3-byte output buffers. distinct = distinct (coding, stop mode, final observation)";
 
 const PATTERNS: [&[u8]; 4] = [b"abc", b"\r\nx", b"xy\r", b"\nzz"];
 
@@ -41,6 +41,11 @@ fn mk_coding(c: crate::refmodel::chunked::Coding, first_size: usize, stop: bool,
 
 /// `te`: the spelling of the Transfer-Encoding value announcing the chunked coding.
 fn mk_coding_te(c: crate::refmodel::chunked::Coding, first_size: usize, stop: bool, menu_kind: u8, te: &str) -> Arc<ExchCfg> {
+    mk_coding_req(c, first_size, stop, menu_kind, te, "1.1")
+}
+
+/// `req_ver`: the version of the REQUEST (the response is HTTP/1.1 and chunked whatever the request said).
+fn mk_coding_req(c: crate::refmodel::chunked::Coding, first_size: usize, stop: bool, menu_kind: u8, te: &str, req_ver: &str) -> Arc<ExchCfg> {
     let msg = RespMsg { version: "1.1".into(), status: 200, reason: "OK".into(), fields: vec![("Transfer-Encoding".into(), te.as_bytes().to_vec())], body: RespBody::Chunked { coding: c.bytes.clone(), payload: c.payload.clone(), ranges: c.data_ranges.clone() } };
     let head_len = msg.head_bytes().len();
     let mut menu = Menu::default_large();
@@ -66,7 +71,7 @@ fn mk_coding_te(c: crate::refmodel::chunked::Coding, first_size: usize, stop: bo
         }
     }
     let srv = vec![ServerMsg { msg, gate: Gate::AfterBody }];
-    let mut cfg = ExchCfg::new("C07", ReqCfg::new("GET", "1.1", "http://a.test/"), vec![], srv, b"HTTP/1.1 2".to_vec(), menu).expect("cfg");
+    let mut cfg = ExchCfg::new("C07", ReqCfg::new("GET", req_ver, "http://a.test/"), vec![], srv, b"HTTP/1.1 2".to_vec(), menu).expect("cfg");
     cfg.start_at = Some("RecvBody");
     cfg.scope = scope;
     Arc::new(cfg)
@@ -157,6 +162,8 @@ pub fn build(tier: Tier) -> Vec<Arc<ExchCfg>> {
         for te in ["Chunked", "gzip, chunked", "chunked,", "gzip,chunked, ,", ", chunked", "chunked ,\t"] {
             out.push(mk_coding_te(crate::refmodel::chunked::encode_bytes(&[(b"3".to_vec(), b"abc".to_vec())], b"0", &[b"T1: v".to_vec()]), 3, stop, 0, te));
         }
+        // an HTTP/1.0 REQUEST answered by an HTTP/1.1 chunked response
+        out.push(mk_coding_req(crate::refmodel::chunked::encode_bytes(&[(b"3".to_vec(), b"abc".to_vec()), (b"02;a=b".to_vec(), b"\r\n".to_vec())], b"0", &[b"T1: v".to_vec()]), 3, stop, 0, "chunked", "1.0"));
         for (line, last) in [(&b"3;n=\"caf\xe9\""[..], &b"0"[..]), (&b"3;n=\xc3\xa9"[..], &b"0;m=\"\xff\""[..])] {
             out.push(mk_coding(crate::refmodel::chunked::encode_bytes(&[(b"2".to_vec(), b"\r\n".to_vec()), (line.to_vec(), b"abc".to_vec())], last, &[]), 2, stop, 0));
         }
@@ -176,16 +183,34 @@ pub fn build(tier: Tier) -> Vec<Arc<ExchCfg>> {
     out
 }
 
+/// Decoders interleaved on one thread (see exch_run::run_interleaved): five chunked responses.
+fn interleave_menu() -> Vec<Arc<ExchCfg>> {
+    use crate::refmodel::chunked::encode_bytes;
+    let mut v = Vec::new();
+    v.push(mk(&[chunk(3, 0, 0), chunk(2, 1, 2)], "0", 1, false, 0));
+    v.push(mk(&[chunk(1, 2, 1), chunk(3, 3, 0)], "000", 2, true, 0));
+    v.push(mk(&[ChunkSpec { data: b"abc".to_vec(), size_txt: "3".into(), ext: ";ext=aaaaaaaaaaaaaa".into() }], "0;yyyyyyyyyyyyyyyyyy", 3, false, 0));
+    v.push(mk_coding(encode_bytes(&[(b"00000000000000000002".to_vec(), b"\r\n".to_vec()), (b"1".to_vec(), b"x".to_vec())], b"0", &[b"HTTP2-Settings: x".to_vec()]), 2, false, 0));
+    v.push(mk(&[chunk(2, 0, 0)], "0", 0, true, 0));
+    v
+}
+
 pub fn run(tier: Tier) -> Report {
     let cfgs = build(tier);
     let lim = Limits { max_states: 5_000_000, keep_final_traces: 2, keep_state_traces: 2, check_coreach: true, probe_every: 8, ..Default::default() };
     let mut rep = run_exchanges(cfgs, &lim, true, |c| c.to_json());
     let fs = rep.extra.get("final_states").and_then(|v| v.as_u64()).unwrap_or(0);
     rep.guard("final states reached", fs > 0);
+    crate::exch_run::run_interleaved("C07", interleave_menu(), &mut rep);
     rep
 }
 
 pub fn replay(v: &Value) -> Result<Option<String>, String> {
+    if v["kind"].as_str() == Some("interleaved") {
+        let mut r = Report::new();
+        crate::exch_run::run_interleaved("C07", interleave_menu(), &mut r);
+        return Ok(r.violations.into_iter().next().map(|(k, (_, v))| format!("[{}] {}", k, v.what)));
+    }
     let tier = if v["tier"].as_str() == Some("thorough") { Tier::Thorough } else { Tier::Quick };
     let cfgs = build(tier);
     let i = v["cfg_index"].as_u64().ok_or("cfg_index")? as usize;
